@@ -2,6 +2,7 @@
 {"type": <complex type class name>, "ops": [...], "unchecked": bool}; stdout: one JSON result per line, same order.
 ops:  ["a",name] add_child | ["w",name,i] add_child(forward=i) | ["r",k] remove k-th child of the insertion-ordered view
       ["p",k,name] replace_child(k-th, new name) | ["q",k] replace_child(k-th, new child of the SAME name) | ["f",ic] final check (required children verdict) | ["s",ic] to_string
+      ["e",k] add_child(k-th child AGAIN, the same object) | ["s",k] replace_child(k-th, k-th) (a child replaced by itself)
       ["x",name] e.xml_<name> = new child | ["n",name] e.xml_<name> = None | ["t",b] e.xsd_check = b
 Observation after every op: st (ok | exception class name), pr (printed to stdout/stderr), ord / uno (child ids in the
 schema-ordered / insertion-ordered view; ids = index of the creating op), req (flattened required names) or None,
@@ -111,6 +112,18 @@ def run_case(case):
                     u = e.get_children(ordered=False)
                     if op[1] < len(u):
                         c = make(u[op[1]].name); c._vid = i; e.replace_child(u[op[1]], c)
+                    else:
+                        st = 'skip'
+                elif k == 'e':
+                    u = e.get_children(ordered=False)
+                    if op[1] < len(u):
+                        e.add_child(u[op[1]])
+                    else:
+                        st = 'skip'
+                elif k == 's':
+                    u = e.get_children(ordered=False)
+                    if op[1] < len(u):
+                        e.replace_child(u[op[1]], u[op[1]])
                     else:
                         st = 'skip'
                 elif k == 'f':
